@@ -28,6 +28,15 @@ struct _streamWrapper
 	MPT_TYPE(event_handler) cmd;
 	void *arg;
 };
+/* processed datagram must not remain as output data */
+static void dispatchFinished(MPT_STRUCT(connection) *con)
+{
+	MPT_STRUCT(buffer) *buf;
+	if (!(con->out.state & MPT_OUTFLAG(Active))
+	    && (buf = con->out.buf._buf)) {
+		buf->_used = 0;
+	}
+}
 static int replyConnection(void *ptr, const MPT_STRUCT(reply_data) *rd, const MPT_STRUCT(message) *msg)
 {
 	MPT_STRUCT(connection) *con = ptr;
@@ -214,10 +223,13 @@ extern int mpt_connection_dispatch(MPT_STRUCT(connection) *con, MPT_TYPE(event_h
 	/* no message id */
 	if (!ilen) {
 		MPT_STRUCT(message) msg = MPT_MESSAGE_INIT;
+		int ret;
 		msg.base = data + hlen;
 		msg.used = buf->_used - hlen;
 		ev.msg = &msg;
-		return cmd(arg, &ev);
+		ret = cmd(arg, &ev);
+		dispatchFinished(con);
+		return ret;
 	}
 	/* got reply message */
 	if (data[0] & 0x80) {
@@ -239,7 +251,9 @@ extern int mpt_connection_dispatch(MPT_STRUCT(connection) *con, MPT_TYPE(event_h
 		}
 		msg.base = data + hlen;
 		msg.used = buf->_used - hlen;
-		if ((len = ans->cmd(ans->arg, &msg)) < 0) {
+		len = ans->cmd(ans->arg, &msg);
+		dispatchFinished(con);
+		if (len < 0) {
 			mpt_log(0, _func, MPT_LOG(Error), "%s (%i)",
 			        MPT_tr("reply processing failed"), len);
 			return MPT_ERROR(MissingBuffer);
@@ -298,6 +312,7 @@ extern int mpt_connection_dispatch(MPT_STRUCT(connection) *con, MPT_TYPE(event_h
 			msg.cont = 0;
 			rc->_vptr->reply(rc, &msg);
 		}
+		dispatchFinished(con);
 		return ret;
 	}
 }
